@@ -69,10 +69,11 @@ DoDeposits(cm, pools, txs, h, legacy) ==
 WithdrawPool(w, k, reqs, h) ==
     LET p  == w.pools[k]
         tq == SumBigSat(reqs, LAMBDA tx : tx.outs[1].val)
-        wd == IF Gt(tq, p.liqs) THEN [pool |-> p, l |-> Zero, r |-> Zero] ELSE Withdraw(p, tq)   \* undefined corner: see WithdrawDefined
+        over == Gt(tq, p.liqs)      \* more than the pool ever issued: the requests are ignored (coins and pool untouched)
+        wd == IF over THEN [pool |-> p, l |-> Zero, r |-> Zero] ELSE Withdraw(p, tq)
         c0(tx) == [cov |-> tx.outs[1].cov, val |-> MultiplyFrac(wd.l, tx.outs[1].val, tq), denom |-> k[1], data |-> tx.outs[1].data, h |-> h]
         c1(tx) == [cov |-> tx.outs[1].cov, val |-> MultiplyFrac(wd.r, tx.outs[1].val, tq), denom |-> k[2], data |-> tx.outs[1].data, h |-> h]
-        cm2 == FoldSeq(LAMBDA tx, acc : PutCoin(PutCoin(acc, Coin0(tx), c0(tx)), Coin1(tx), c1(tx)), w.cm, reqs)
+        cm2 == IF over THEN w.cm ELSE FoldSeq(LAMBDA tx, acc : PutCoin(PutCoin(acc, Coin0(tx), c0(tx)), Coin1(tx), c1(tx)), w.cm, reqs)
     IN [cm |-> cm2, pools |-> Put(w.pools, k, wd.pool)]
 WithdrawDefined(pools, txs, cm) ==
     LET reqs == SelectSeq(txs, LAMBDA tx : IsWithdraw(tx, cm, pools))
@@ -110,7 +111,8 @@ SealSpec(st, action, txs, rewardid) ==
          feePool |-> IF action.some THEN Sub(fp1, base) ELSE fp1,
          tips |-> IF action.some THEN Zero ELSE st.tips,
          feeMult |-> IF action.some THEN NextFeeMult(st.feeMult, action.delta, Tip901(net, h)) ELSE st.feeMult,
-         defined |-> WithdrawDefined(w2.pools, txs, w2.cm),
+         \* (requests to redeem more than a pool's liquidity are ignored: WithdrawPool; kept as a field for the monitors)
+         defined |-> TRUE,
          \* per denomination, the value of the second coins that legacy deposits keep (zero function outside the legacy window)
          legacyKept |-> [d \in DenomsOf(st) \cup {"MEL", "SYM", "ERG"} \cup {tx.outs[2].denom : tx \in {t \in RangeS(txs) : IsDeposit(t, w1.cm)}} |->
                           IF LegacyNet(net) /\ h < LEGACY_DEPOSIT
